@@ -64,9 +64,16 @@ def main():
             if a.digests:
                 s["events"] = res.events
             if res.violation is not None or res.harness_error is not None:
-                s["replay"] = {"header": res.header, "ops": res.ops, "hashseed": hashseed, "opts": opts,
+                s["replay"] = {"header": res.header,
+                               "ops": res.ops[:(res.violation.step or 0) + 1] if res.collected else res.ops,
+                               "hashseed": hashseed, "opts": opts,
                                "expected": res.violation.klass() if res.violation else None}
-            elif idx == lo:
+            if len(res.collected) > 1:
+                # enumeration mode: one entry per violation, each with the prefix of the history that reaches it
+                s["more"] = [{"violation": v.to_json(),
+                              "replay": {"header": res.header, "ops": res.ops[:(v.step or 0) + 1], "hashseed": hashseed,
+                                         "opts": opts, "expected": v.klass()}} for v in res.collected[1:]]
+            if idx == lo and res.violation is None and res.harness_error is None:
                 s["sample"] = {"cfg": res.header.get("cfg"), "ops": res.ops[:6]}
             out.write(json.dumps(s) + "\n")
             out.flush()
